@@ -14,6 +14,7 @@
 package core
 
 import (
+	"fmt"
 	"math/big"
 	"reflect"
 	"sort"
@@ -294,6 +295,29 @@ type VerifView struct {
 	CurrentMaxGas            uint64
 	ChanLens                 map[string]int
 	Config                   TxPoolConfig
+	// StaleCaches: lists whose sorted-read cache (what Content / Pending / the miner's view return) is populated but does
+	// not hold exactly the list's transactions in nonce order.
+	StaleCaches []string
+}
+
+func verifCacheStale(l *txList) string {
+	c := l.txs.cache
+	if c == nil {
+		return ""
+	}
+	if len(c) != len(l.txs.items) {
+		return fmt.Sprintf("cache has %d transactions, the list %d", len(c), len(l.txs.items))
+	}
+	for i, tx := range c {
+		it, ok := l.txs.items[tx.Nonce()]
+		if !ok || it.Hash() != tx.Hash() {
+			return fmt.Sprintf("cache entry %d (nonce %d, %x) is not the list's transaction of that nonce", i, tx.Nonce(), tx.Hash().Bytes()[:4])
+		}
+		if i > 0 && c[i-1].Nonce() >= tx.Nonce() {
+			return fmt.Sprintf("cache is not in nonce order at %d", i)
+		}
+	}
+	return ""
 }
 
 func (pool *TxPool) verifTx(tx *types.Transaction) VerifTx {
@@ -360,6 +384,9 @@ func (pool *TxPool) VerifView() *VerifView {
 		ChanLens: map[string]int{}, Config: pool.config,
 	}
 	for a, l := range pool.pending {
+		if d := verifCacheStale(l); d != "" {
+			v.StaleCaches = append(v.StaleCaches, fmt.Sprintf("pending %x: %s", a.Bytes()[:3], d))
+		}
 		if len(l.txs.items) == 0 {
 			v.EmptyPending = append(v.EmptyPending, a)
 			continue
@@ -367,12 +394,16 @@ func (pool *TxPool) VerifView() *VerifView {
 		v.Pending[a] = pool.verifList(l)
 	}
 	for a, l := range pool.queue {
+		if d := verifCacheStale(l); d != "" {
+			v.StaleCaches = append(v.StaleCaches, fmt.Sprintf("queue %x: %s", a.Bytes()[:3], d))
+		}
 		if len(l.txs.items) == 0 {
 			v.EmptyQueue = append(v.EmptyQueue, a)
 			continue
 		}
 		v.Queue[a] = pool.verifList(l)
 	}
+	sort.Strings(v.StaleCaches)
 	for h, tx := range pool.all.locals {
 		v.Locals[h] = pool.verifTx(tx)
 	}
